@@ -558,6 +558,33 @@ var extPreconds = map[string]extPre{
 	"regexp.MustCompile":                       {argLen: -1, nonZero: -1},
 }
 
+// onlyEncodedLowBits: the converted value's only use is as the value argument of
+// encoding/binary's PutUintN with N the width of the conversion's target type.
+func onlyEncodedLowBits(cv *ssa.Convert) bool {
+	if cv.Referrers() == nil {
+		return false
+	}
+	b, ok := cv.Type().Underlying().(*types.Basic)
+	if !ok || b.Info()&types.IsUnsigned == 0 {
+		return false
+	}
+	n := 0
+	for _, r := range *cv.Referrers() {
+		switch x := r.(type) {
+		case *ssa.DebugRef:
+		case *ssa.Call:
+			sc := x.Call.StaticCallee()
+			if sc == nil || !strings.Contains(sc.String(), "encoding/binary") || sc.Name() != fmt.Sprintf("PutUint%d", intWidth(b)) || len(x.Call.Args) != 3 || x.Call.Args[2] != ssa.Value(cv) {
+				return false
+			}
+			n++
+		default:
+			return false
+		}
+	}
+	return n > 0
+}
+
 // ---------------------------------------------------------------------
 // enumeration
 
@@ -716,6 +743,9 @@ func (pe *PEngine) enumerate(fn *ssa.Function, isEntry bool) []*pci {
 				src := pf.get(x.X)
 				if convPreserves(src, x.Type()) {
 					continue // syntactic range (masking, lengths, byte loads) already fits
+				}
+				if onlyEncodedLowBits(x) {
+					continue // binary.PutUintN(buf, uintN(v)): writes the low N bits, the library spelling of byte(v), byte(v>>8)...
 				}
 				l := pf.linOf(src)
 				add(&pci{kind: "conv", ins: ins, desc: typeKey(x.X.Type()) + "->" + typeKey(x.Type()) + " " + descVN(src, 0),
